@@ -317,6 +317,10 @@ def gen_program(rng, focus="c09", maxt=None, busy=False):
     prog = {"max": maxt, "min": mint, "timeout": rng.choice([0.005, 0.01, 0.02, 0.05]),
             "queue_size": 0 if rng.random() < 0.9 else rng.choice([1, 2, 3]),
             "controller": [], "enqueuers": []}
+    if rng.random() < 0.12:
+        # a long idle timeout: workers only wake up for work or when the pool wakes them (stop)
+        prog["timeout"] = 30
+        prog["queue_size"] = 0      # (a full bounded queue would legitimately block enqueue for that long)
     n_enq = rng.choice([0, 0, 1, 1, 2]) if not busy else 2
     counter = [0]
     gates = [0]
@@ -631,7 +635,7 @@ class PoolRun(object):
                 elif k == "sample":
                     if self.running:
                         # idle sample: let idle timeouts expire, then count live workers
-                        time.sleep(self.prog["timeout"] * 2.5)
+                        time.sleep(min(self.prog["timeout"] * 2.5, 0.15))
                         alive = len(self.workers_alive())
                         h.ev("sample", alive=alive)
                 elif k == "barrier":
